@@ -27,6 +27,36 @@ def extract_playback_test(log_text, harness_id):
     return m.group(1), m.group(2)
 
 
+def permuted_tests(test_src, test_name, limit=24):
+    """The playback test itself plus variants with equal-length value vectors permuted."""
+    import itertools
+    m = re.search(r"vec!\[\n(.*?)\n\s*\];", test_src, re.S)
+    if not m:
+        return [test_src]
+    lines = m.group(1).split("\n")
+    # entries = (comment lines..., vec line)
+    entries, cur = [], []
+    for l in lines:
+        cur.append(l)
+        if re.match(r"\s*vec!\[", l):
+            entries.append(cur)
+            cur = []
+    sizes = [len(re.findall(r"\d+", e[-1].split("vec![", 1)[1])) for e in entries]
+    idx = list(range(len(entries)))
+    variants, seen = [test_src], {tuple(idx)}
+    for perm in itertools.permutations(idx):
+        if len(variants) >= limit:
+            break
+        if perm in seen or any(sizes[i] != sizes[p] for i, p in enumerate(perm)):
+            continue
+        seen.add(perm)
+        body = "\n".join("\n".join(entries[p]) for p in perm)
+        t = test_src[:m.start(1)] + body + test_src[m.end(1):]
+        t = t.replace("fn " + test_name + "()", f"fn {test_name}_p{len(variants)}()")
+        variants.append(t)
+    return variants
+
+
 def decode_vals(test_src):
     """[[bytes...], ...] from the generated test (one vector per kani::any() call, in order)."""
     vals = []
@@ -78,8 +108,13 @@ def run_playback_test(runner, ws, prop, h, test_src, test_name, profiles=("dev",
             open(os.path.join(rdir, name), "w", encoding="utf-8").write(text)
     if not os.path.exists(copy) or h["file"].startswith(runner.CACHE):
         shutil.copyfile(h["file"], copy)
+    # Kani lists the solver's values in the order they appear in CBMC's trace, which is not always
+    # the order of the kani::any() calls (observed: two u32 operands swapped). The assignment is
+    # therefore also replayed with values of equal byte length permuted (at most 24 variants); a
+    # native failure of any variant is a real reproduction whichever way its input was obtained.
+    variants = permuted_tests(test_src, test_name)
     with open(copy, "a", encoding="utf-8") as f:
-        f.write("\n// ---- concrete playback (appended by tools/replay.py) ----\n" + test_src + "\n")
+        f.write("\n// ---- concrete playback (appended by tools/replay.py) ----\n" + "\n".join(variants) + "\n")
     _point_mod_at(ws, h["src"], copy, h["mod"])
     env = dict(runner.ENV)
     env["CARGO_TARGET_DIR"] = os.path.join(runner.CACHE, "playback-target", prop)
@@ -100,6 +135,9 @@ def run_playback_test(runner, ws, prop, h, test_src, test_name, profiles=("dev",
                            timeout=3600)
         out = p.stdout
         ran = re.search(r"test result: (\w+)\. (\d+) passed; (\d+) failed", out)
+        failed_variants = re.findall(r"test \S*(" + re.escape(test_name) + r"\w*) \.\.\. FAILED", out)
+        if failed_variants:
+            outcomes[prof + "_failed_variants"] = sorted(set(failed_variants))
         if ran and int(ran.group(3)) >= 1:
             outcomes[prof] = "failed"  # the native run hits the violation
         elif ran and int(ran.group(2)) >= 1:
